@@ -24,18 +24,25 @@
   `fpStatesN_prob`), local interaction (`liStates_range`, `li_uses_old_profile`,
   `li_async_changes_only_revisers`), logit dynamics (`logitStep_range`, `logitStates_inRange`),
   the search model (`locate_is_searchsorted`), determinism (`stepK_smallest_stream_indep`).
+  Growth round: `payoffVecN_expected` / `payoffVecN_three_players` (the N-player `payoff_vector` IS the
+  expected payoff; previously listed as not proved), `fpStepN_smallest_expected_best_response`,
+  `fpStepN_random_expected_best_response` (guard `BrsGuard`), `fp_empirical_frequency` (decreasing
+  gain: beliefs are running averages along every history), `logitChoice_eq_iff` (inverse CDF:
+  action `a` iff `cdf[a-1] ≤ u·cdf[-1] < cdf[a]`), `stepK_l1` (ℓ¹ distance 0 or 2 per period).
 -/
 import QEModel.C20
 import QEProofs.Lemmas.C20Brd
 import QEProofs.Lemmas.C20Br
 import QEProofs.Lemmas.C20Fp
 import QEProofs.Lemmas.C20FpN
+import QEProofs.Lemmas.C20Exp
 import QEProofs.Lemmas.C20Li
 import QEProofs.Lemmas.C20Logit
 import QEProofs.Lemmas.C20Search
 import Mathlib.Data.List.Forall2
 import Mathlib.Algebra.Order.Field.Basic
 import Mathlib.Tactic.FieldSimp
+import Mathlib.Tactic.LinearCombination
 import Mathlib.Algebra.Order.Ring.Int
 import Mathlib.Algebra.Order.Ring.Rat
 namespace QE.C20
@@ -174,6 +181,24 @@ theorem states_valid (ι : Int → K) (G : Game K) (k : Kind K) (N : Int) (n : N
     · obtain ⟨h0, hp⟩ := hin inp (by simp)
       obtain ⟨hv', hri', _⟩ := stepK_valid ι G k inp N n s.1 s.2 hA hv h0 hp hri
       exact ih _ (fun i hi => hin i (List.mem_cons_of_mem _ hi)) hv' hri' t ht
+
+/-- **At most one player moves per period, in ℓ¹ terms, along every history** (BRD, KMR with or
+    without mutation, SamplingBRD; any tie-breaking, coin, sample, stream with entries `< n`): on a
+    valid state and a player index in `[0, N)`, the next state is at ℓ¹ distance `0` (the reviser
+    keeps its action) or exactly `2` (one player moved) from the current one. -/
+theorem stepK_l1 (ι : Int → K) (G : Game K) (k : Kind K) (inp : Inp K) (N : Int) (n : Nat)
+    (d : List Int) (ri : List Nat) (hA : G.A.length = n) (hv : Valid N n d)
+    (h0 : 0 ≤ inp.p) (hp : inp.p < N) (hri : ∀ r ∈ ri, r < n) :
+    l1dist (stepK ι G k inp (d, ri)).1 d = 0 ∨ l1dist (stepK ι G k inp (d, ri)).1 d = 2 := by
+  obtain ⟨ha, _, _, _⟩ := locate_spec N n d inp.p hv h0 hp
+  have hl : d.length = n := hv.1
+  obtain ⟨b, hb, hmove, _⟩ := playK_is_move ι G k inp (locate d inp.p) d ri (by omega) (by omega)
+    (by rw [hl]; exact hri)
+  have : (stepK ι G k inp (d, ri)).1 = move d (locate d inp.p) b := hmove
+  rw [this, l1dist_move d _ b (by omega) hb]
+  split
+  · exact Or.inl rfl
+  · exact Or.inr rfl
 
 /-- **`init_action_dist=None`**: the initial condition the code draws for itself
     (`_set_action_dist` of one in-range action per player) is valid, hence — by `states_valid` — so
@@ -484,6 +509,136 @@ theorem fpStepN_smallest_exact (Gs : List (GameN K)) (γ : K) (perts : List (Opt
   rw [h3 k hk hG]
   simp
 
+omit [LinearOrder K] [IsStrictOrderedRing K] in
+/-- **What `Player.payoff_vector` computes for N players** (the clause the earlier rounds listed as
+    not proved).  For a C-order payoff array with axes (own, opp₁, …, opp_k) of shape
+    `n × |x₁| × … × |x_k|` and mixed actions `x₁, …, x_k` with at least one entry each, entry `a < n` of
+    `payoff_vector` is the expected payoff of own action `a` against independent opponents:
+    `expPayoff flat [x₁,…,x_k] a = Σ_{j₁} ( … Σ_{j_k} flat[(…(a·|x₁|+j₁)…)·|x_k|+j_k] · x_k[j_k] … ) · x₁[j₁]`. -/
+theorem payoffVecN_expected (flat : List K) (opps : List (List K)) (n a : Nat)
+    (hpos : ∀ o ∈ opps, 0 < o.length) (hshape : flat.length = n * (opps.map List.length).prod) (ha : a < n) :
+    (payoffVecN flat opps).length = n ∧ (payoffVecN flat opps).getD a 0 = expPayoff flat opps a :=
+  ⟨payoffVecN_length flat opps hpos n hshape, payoffVecN_getD flat opps hpos n a hshape ha⟩
+
+omit [LinearOrder K] [IsStrictOrderedRing K] in
+/-- the three-player case written out: two opponents, a double sum over their actions with the
+    C-order index `(a·m₁ + j₁)·m₂ + j₂` and the product weight `x₁[j₁]·x₂[j₂]` -/
+theorem payoffVecN_three_players (flat x1 x2 : List K) (n a : Nat) (h1 : 0 < x1.length) (h2 : 0 < x2.length)
+    (hshape : flat.length = n * (x1.length * x2.length)) (ha : a < n) :
+    (payoffVecN flat [x1, x2]).getD a 0 =
+      sumRange x1.length (fun j1 => sumRange x2.length (fun j2 =>
+        flat.getD ((a * x1.length + j1) * x2.length + j2) 0 * (x1.getD j1 0 * x2.getD j2 0))) := by
+  rw [(payoffVecN_expected flat [x1, x2] n a (by intro o ho; simp at ho; rcases ho with rfl | rfl <;> assumption)
+    (by simpa using hshape) ha).2]
+  simp only [expPayoff]
+  apply sumRange_congr
+  intro j1 _
+  rw [sumRange_mul]
+  apply sumRange_congr
+  intro j2 _
+  ring
+
+/-- **N-player fictitious play moves towards a best response in EXPECTED payoff** (smallest
+    tie-breaking, no perturbation for player `k`): the action `b` towards which player `k`'s belief
+    moves satisfies `E[u_k(a, x₋ₖ)] − tol ≤ E[u_k(b, x₋ₖ)]` for every own action `a`, the expectation
+    being taken over the *previous* beliefs of the others, and no smaller action has that property
+    against the maximum. -/
+theorem fpStepN_smallest_expected_best_response (Gs : List (GameN K)) (γ : K)
+    (perts : List (Option (List K))) (s : List (List K) × List Nat) (nums : List Nat)
+    (hr : ∀ G ∈ Gs, G.rnd = false) (hN : Gs.length = s.1.length) (hxs : s.1.map List.length = nums)
+    (hpos : ∀ m ∈ nums, 0 < m) (k : Nat) (hk : k < Gs.length)
+    (hshape : Gs[k].flat.length = nums.getD k 0 * (rot k nums).prod) (hnk : 0 < nums.getD k 0)
+    (htol : 0 ≤ Gs[k].tol) (hpert : perts.getD k none = none) :
+    ∃ b, b < nums.getD k 0 ∧
+      (fpStepN Gs γ perts s).1[k]? = some (scaleAdd (s.1.getD k []) γ b) ∧
+      ∀ a, a < nums.getD k 0 →
+        expPayoff Gs[k].flat (rot k s.1) a - Gs[k].tol ≤ expPayoff Gs[k].flat (rot k s.1) b := by
+  obtain ⟨_, hlen, hex⟩ := fpStepN_smallest_exact Gs γ perts s hr hN
+  have hkx : k < s.1.length := by omega
+  have hopp : ∀ o ∈ rot k s.1, 0 < o.length := by
+    intro o ho
+    have : o.length ∈ (rot k s.1).map List.length := List.mem_map_of_mem ho
+    rw [rot_map_length, hxs] at this
+    have hm : o.length ∈ nums := by
+      simp only [rot, List.mem_append] at this
+      rcases this with h | h
+      · exact List.mem_of_mem_drop h
+      · exact List.mem_of_mem_take h
+    exact hpos _ hm
+  have hsh : Gs[k].flat.length = nums.getD k 0 * ((rot k s.1).map List.length).prod := by
+    rw [rot_map_length, hxs]; exact hshape
+  have hpvlen := payoffVecN_length Gs[k].flat (rot k s.1) hopp _ hsh
+  have hne : payoffVecN Gs[k].flat (rot k s.1) ≠ [] := by
+    intro h
+    have h0 : (payoffVecN Gs[k].flat (rot k s.1)).length = 0 := by rw [h]; rfl
+    omega
+  have hstep := hex k (by rw [hlen]; exact hkx) hkx hk
+  rw [hpert] at hstep
+  simp only [addPert] at hstep
+  cases hs : brSet (payoffVecN Gs[k].flat (rot k s.1)) Gs[k].tol with
+  | nil => exact absurd hs (brSet_ne_nil _ _ hne htol)
+  | cons b rest =>
+    obtain ⟨⟨hb1, hb2⟩, _⟩ := brSet_head_min _ _ b rest hs
+    refine ⟨b, by omega, ?_, ?_⟩
+    · rw [List.getElem?_eq_getElem (by omega), hstep, hs]
+      simp [List.getD_eq_getElem?_getD, hkx]
+    · intro a ha
+      have hmem : (payoffVecN Gs[k].flat (rot k s.1)).getD a 0 ∈ payoffVecN Gs[k].flat (rot k s.1) := by
+        rw [List.getD_eq_getElem?_getD, List.getElem?_eq_getElem (by omega), Option.getD_some]
+        exact List.getElem_mem _
+      have hle := le_maxL _ _ hmem
+      rw [← payoffVecN_getD Gs[k].flat (rot k s.1) hopp _ a hsh ha,
+        ← payoffVecN_getD Gs[k].flat (rot k s.1) hopp _ b hsh (by omega)]
+      exact le_trans (sub_le_sub_right hle _) hb2
+
+/-- **N-player fictitious play, any tie-breaking mode**: if every index drawn in the first loop of
+    `_play` is a valid index into the then-current best-response set (`BrsGuard`, the stream threaded
+    as the loop does) then player `k` (unperturbed) moves towards an action `b` that is a best
+    response in expected payoff against the previous beliefs: `E[u_k(a,x₋ₖ)] − tol ≤ E[u_k(b,x₋ₖ)]`
+    for every own action `a`. -/
+theorem fpStepN_random_expected_best_response (Gs : List (GameN K)) (γ : K)
+    (perts : List (Option (List K))) (s : List (List K) × List Nat) (nums : List Nat)
+    (hN : Gs.length = s.1.length) (hxs : s.1.map List.length = nums) (hpos : ∀ m ∈ nums, 0 < m)
+    (hg : BrsGuard s.1 perts 0 Gs s.2)
+    (hne : ∀ j (h : j < Gs.length),
+      addPert (payoffVecN Gs[j].flat (rot j s.1)) (perts.getD j none) ≠ [] ∧ 0 ≤ Gs[j].tol)
+    (k : Nat) (hk : k < Gs.length)
+    (hshape : Gs[k].flat.length = nums.getD k 0 * (rot k nums).prod) (hpert : perts.getD k none = none) :
+    ∃ b, b < nums.getD k 0 ∧
+      (fpStepN Gs γ perts s).1[k]? = some (scaleAdd (s.1.getD k []) γ b) ∧
+      ∀ a, a < nums.getD k 0 →
+        expPayoff Gs[k].flat (rot k s.1) a - Gs[k].tol ≤ expPayoff Gs[k].flat (rot k s.1) b := by
+  obtain ⟨hbl, hbm⟩ := brsN_mem s.1 perts Gs 0 s.2 hg (by
+    intro j hj; simpa using hne j hj)
+  have hkx : k < s.1.length := by omega
+  have hkb : k < (brsN s.1 perts 0 Gs s.2).1.length := by omega
+  have hmem := hbm k hkb hk
+  simp only [Nat.zero_add, hpert, addPert] at hmem
+  have hopp : ∀ o ∈ rot k s.1, 0 < o.length := by
+    intro o ho
+    have : o.length ∈ (rot k s.1).map List.length := List.mem_map_of_mem ho
+    rw [rot_map_length, hxs] at this
+    have hm : o.length ∈ nums := by
+      simp only [rot, List.mem_append] at this
+      rcases this with h | h
+      · exact List.mem_of_mem_drop h
+      · exact List.mem_of_mem_take h
+    exact hpos _ hm
+  have hsh : Gs[k].flat.length = nums.getD k 0 * ((rot k s.1).map List.length).prod := by
+    rw [rot_map_length, hxs]; exact hshape
+  have hpvlen := payoffVecN_length Gs[k].flat (rot k s.1) hopp _ hsh
+  obtain ⟨hb1, hb2⟩ := (mem_brSet _ _ _).1 hmem
+  refine ⟨(brsN s.1 perts 0 Gs s.2).1[k], by omega, ?_, ?_⟩
+  · simp [fpStepN, hkx, hkb, List.getD_eq_getElem?_getD]
+  · intro a ha
+    have hmem' : (payoffVecN Gs[k].flat (rot k s.1)).getD a 0 ∈ payoffVecN Gs[k].flat (rot k s.1) := by
+      rw [List.getD_eq_getElem?_getD, List.getElem?_eq_getElem (by omega), Option.getD_some]
+      exact List.getElem_mem _
+    have hle := le_maxL _ _ hmem'
+    rw [← payoffVecN_getD Gs[k].flat (rot k s.1) hopp _ a hsh ha,
+      ← payoffVecN_getD Gs[k].flat (rot k s.1) hopp _ _ hsh (by omega)]
+    exact le_trans (sub_le_sub_right hle _) hb2
+
 omit [IsStrictOrderedRing K] in
 /-- **The N-player model specialises to the 2-player model**: on flattened payoff matrices with
     well-shaped rows, one period of `fpStepN` with two players is one period of `fpStep`. -/
@@ -541,6 +696,105 @@ theorem scaleAdd_decreasing_gain (x : List F) (t b j : Nat) (hb : b < x.length) 
   have hne : (t : F) + 2 ≠ 0 := ne_of_gt hpos
   rw [(stepSize_decreasing (F := F) t).1, scaleAdd_getD x _ b j hb]
   split <;> field_simp <;> ring
+
+/-- the belief profile after all periods (the last row of `time_series` / the result of `play`) -/
+def fpFinal (G0 G1 : Game F) (inps : List (FpInp F)) (s : (List F × List F) × List Nat) :
+    (List F × List F) × List Nat :=
+  inps.foldl (fun st inp => fpStep G0 G1 inp st) s
+
+/-- the pairs of actions `(b₀, b₁)` the two beliefs moved towards, period by period -/
+def fpTargets (G0 G1 : Game F) : List (FpInp F) → (List F × List F) × List Nat → List (Nat × Nat)
+  | [], _ => []
+  | inp :: rest, s =>
+    ((brPick G0 s.1.2 inp.pert0 s.2).1, (brPick G1 s.1.1 inp.pert1 (brPick G0 s.1.2 inp.pert0 s.2).2).1) ::
+      fpTargets G0 G1 rest (fpStep G0 G1 inp s)
+
+omit [IsStrictOrderedRing F] in
+theorem fpStates_getLast (G0 G1 : Game F) : ∀ (inps : List (FpInp F)) (s : (List F × List F) × List Nat),
+    (fpStates G0 G1 inps s).getLast? = some (fpFinal G0 G1 inps s) := by
+  intro inps
+  induction inps with
+  | nil => intro s; simp [fpStates, fpFinal]
+  | cons inp rest ih =>
+    intro s
+    have := ih (fpStep G0 G1 inp s)
+    cases hst : fpStates G0 G1 rest (fpStep G0 G1 inp s) with
+    | nil => rw [hst] at this; simp at this
+    | cons a l =>
+      rw [hst] at this
+      simp only [fpStates, hst, fpFinal, List.foldl_cons]
+      simpa [List.getLast?_cons_cons, fpFinal] using this
+
+/-- **Fictitious play with decreasing gain: beliefs are empirical frequencies, along every history.**
+    If period `j` uses the documented step `1/(t₀+j+2)`, then after `T` periods (any tie-breaking, any
+    perturbations, any stream) each belief is the running average of the initial belief (weight
+    `t₀+1`) and the actions it moved towards:
+    `(t₀+T+1) · x_T[i] = (t₀+1) · x_0[i] + #{periods whose target was i}`, for both players. -/
+theorem fp_empirical_frequency (G0 G1 : Game F) :
+    ∀ (inps : List (FpInp F)) (t0 : Nat) (s : (List F × List F) × List Nat),
+      FpOK G0 G1 s.1 →
+      (∀ j (h : j < inps.length), inps[j].γ = stepSize (fun n : Nat => (n : F)) none (t0 + j)) →
+      ∀ i,
+        (((t0 + inps.length + 1 : Nat) : F) * (fpFinal G0 G1 inps s).1.1.getD i 0 =
+          ((t0 + 1 : Nat) : F) * s.1.1.getD i 0 + (((fpTargets G0 G1 inps s).map Prod.fst).count i : F)) ∧
+        (((t0 + inps.length + 1 : Nat) : F) * (fpFinal G0 G1 inps s).1.2.getD i 0 =
+          ((t0 + 1 : Nat) : F) * s.1.2.getD i 0 + (((fpTargets G0 G1 inps s).map Prod.snd).count i : F)) := by
+  intro inps
+  induction inps with
+  | nil => intro t0 s _ _ i; simp [fpFinal, fpTargets]
+  | cons inp rest ih =>
+    intro t0 s hs hγ i
+    have hγ0 : inp.γ = stepSize (fun n : Nat => (n : F)) none t0 := by
+      have := hγ 0 (by simp)
+      simp only [List.getElem_cons_zero, Nat.add_zero] at this
+      exact this
+    obtain ⟨_, hgpos, hgle⟩ := stepSize_decreasing (F := F) t0
+    have hs' := (fpStep_prob G0 G1 inp s (by rw [hγ0]; exact le_of_lt hgpos) (by rw [hγ0]; exact hgle) hs).1
+    have hrest : ∀ j (h : j < rest.length), rest[j].γ = stepSize (fun n : Nat => (n : F)) none (t0 + 1 + j) := by
+      intro j hj
+      have := hγ (j + 1) (by simpa using hj)
+      have e : t0 + (j + 1) = t0 + 1 + j := by omega
+      simpa [e] using this
+    obtain ⟨ih0, ih1⟩ := ih (t0 + 1) (fpStep G0 G1 inp s) hs' hrest i
+    obtain ⟨hl0, hl1, hn0, hn1, _, _⟩ := hs
+    have hb0 : (brPick G0 s.1.2 inp.pert0 s.2).1 < s.1.1.length := by
+      rw [hl0]; exact brPick_fst_lt G0 _ _ _ hn0
+    have hb1 : (brPick G1 s.1.1 inp.pert1 (brPick G0 s.1.2 inp.pert0 s.2).2).1 < s.1.2.length := by
+      rw [hl1]; exact brPick_fst_lt G1 _ _ _ hn1
+    have e0 := scaleAdd_decreasing_gain (F := F) s.1.1 t0 _ i hb0
+    have e1 := scaleAdd_decreasing_gain (F := F) s.1.2 t0 _ i hb1
+    rw [← hγ0] at e0 e1
+    have hf0 : (fpStep G0 G1 inp s).1.1 = scaleAdd s.1.1 inp.γ (brPick G0 s.1.2 inp.pert0 s.2).1 := rfl
+    have hf1 : (fpStep G0 G1 inp s).1.2 =
+        scaleAdd s.1.2 inp.γ (brPick G1 s.1.1 inp.pert1 (brPick G0 s.1.2 inp.pert0 s.2).2).1 := rfl
+    rw [hf0] at ih0
+    rw [hf1] at ih1
+    have hfin : fpFinal G0 G1 (inp :: rest) s = fpFinal G0 G1 rest (fpStep G0 G1 inp s) := rfl
+    simp only [hfin, fpTargets, List.map_cons, List.count_cons, List.length_cons]
+    push_cast at ih0 ih1 e0 e1 ⊢
+    constructor
+    · by_cases hc : i = (brPick G0 s.1.2 inp.pert0 s.2).1
+      · have hbeq : ((brPick G0 s.1.2 inp.pert0 s.2).1 == i) = true := by simp [hc]
+        rw [if_pos hc] at e0
+        simp only [hbeq, if_true]
+        linear_combination ih0 + e0
+      · have hbeq : ((brPick G0 s.1.2 inp.pert0 s.2).1 == i) = false := by
+          simpa using fun h : (brPick G0 s.1.2 inp.pert0 s.2).1 = i => hc h.symm
+        rw [if_neg hc] at e0
+        simp only [hbeq]
+        push_cast
+        linear_combination ih0 + e0
+    · by_cases hc : i = (brPick G1 s.1.1 inp.pert1 (brPick G0 s.1.2 inp.pert0 s.2).2).1
+      · have hbeq : ((brPick G1 s.1.1 inp.pert1 (brPick G0 s.1.2 inp.pert0 s.2).2).1 == i) = true := by simp [hc]
+        rw [if_pos hc] at e1
+        simp only [hbeq, if_true]
+        linear_combination ih1 + e1
+      · have hbeq : ((brPick G1 s.1.1 inp.pert1 (brPick G0 s.1.2 inp.pert0 s.2).2).1 == i) = false := by
+          simpa using fun h : (brPick G1 s.1.1 inp.pert1 (brPick G0 s.1.2 inp.pert0 s.2).2).1 = i => hc h.symm
+        rw [if_neg hc] at e1
+        simp only [hbeq]
+        push_cast
+        linear_combination ih1 + e1
 
 omit [LinearOrder F] [IsStrictOrderedRing F] in
 /-- constant gain: the step size is the gain -/
@@ -661,6 +915,42 @@ theorem logitStep_range (nums : List Nat) (tables : List (List (List K))) (i : N
   have hsp := searchRight_spec (logitRow nums tables i actions) (u * (logitRow nums tables i actions).getLastD 0)
   refine ⟨logitChoice (logitRow nums tables i actions) u, ?_, by omega, hsp.1, hsp.2 hlt⟩
   simp [logitStep, logitRow, hi]
+
+omit [IsStrictOrderedRing K] in
+/-- **The logit choice is the inverse CDF** (which uniforms lead to which action).  For a
+    non-decreasing cdf row and `v = u·cdf[-1]`, the chosen action is `a` **iff**
+    `cdf[a-1] ≤ v < cdf[a]` (with no lower condition for `a = 0`): action `a` is chosen exactly on an
+    interval of uniforms of length `(cdf[a] − cdf[a-1]) / cdf[-1]`, its logit probability. -/
+theorem logitChoice_eq_iff (cdf : List K) (u : K) (hs : cdf.Pairwise (· ≤ ·)) (a : Nat) (ha : a < cdf.length) :
+    logitChoice cdf u = a ↔
+      (a = 0 ∨ cdf.getD (a - 1) 0 ≤ u * cdf.getLastD 0) ∧ u * cdf.getLastD 0 < cdf.getD a 0 := by
+  have hmono : ∀ i j, i ≤ j → j < cdf.length → cdf.getD i 0 ≤ cdf.getD j 0 := by
+    intro i j hij hj
+    rw [List.getD_eq_getElem?_getD, List.getD_eq_getElem?_getD, List.getElem?_eq_getElem (by omega),
+      List.getElem?_eq_getElem hj, Option.getD_some, Option.getD_some]
+    rcases Nat.lt_or_eq_of_le hij with h | h
+    · exact List.pairwise_iff_getElem.1 hs i j (by omega) hj h
+    · subst h; exact le_refl _
+  have hsp := searchRight_spec cdf (u * cdf.getLastD 0)
+  constructor
+  · intro h
+    unfold logitChoice at h
+    refine ⟨?_, ?_⟩
+    · by_cases h0 : a = 0
+      · exact Or.inl h0
+      · exact Or.inr (hsp.1 (a - 1) (by omega))
+    · have := hsp.2 (by omega)
+      rw [h] at this; exact this
+  · rintro ⟨h1, h2⟩
+    unfold logitChoice
+    symm
+    apply searchRight_unique cdf _ a (by omega)
+    · intro j hj
+      rcases h1 with h0 | h1
+      · omega
+      · exact le_trans (hmono j (a - 1) (by omega) (by omega)) h1
+    · intro j hj hjl
+      exact lt_of_lt_of_le h2 (hmono a j hj hjl)
 
 /-- every action lies inside its player's action set: `actions[j] < nums[j]` for all `j`,
     and there is one action per player -/
@@ -889,6 +1179,8 @@ example : (states (fun z => z) exG (.kmr 1) [⟨0, 0, []⟩] ([2, 1], [1])).map 
 example : (states (fun z => z) exG .sbrd [⟨0, 0, [1, 1]⟩] ([2, 1], [])).map Prod.fst = [[2, 1], [1, 2]] := by
   decide
 example : setActionDist 3 [2, 0, 2, 2] = [1, 0, 3] := by decide
+/-- ℓ¹ distance along the BRD path above: 0 (stay), 2 (one player moved), 0 -/
+example : l1dist [2, 1] [2, 1] = 0 ∧ l1dist [3, 0] [2, 1] = 2 := by decide
 /-- `IndexError` branch: player index 3 with 3 players -/
 example : series (fun z => z) exG .brd [⟨3, 0, []⟩] ([2, 1], []) = none := by decide
 /-- the stream hypothesis of `states_valid` is needed for KMR: an out-of-range "random action"
@@ -919,6 +1211,46 @@ example : FpNOK [2, 2, 2] ([[1, 0], [0, 1], [1/2, 1/2]] : List (List Rat)) := by
 /-- payoff 1 only if all three coordinate: against (e₁, ½·½) player 0's payoffs are (0, ½) → action 1, … -/
 example : (fpStatesN gN [(1/2, [none, none, none])] ([[1, 0], [0, 1], [1/2, 1/2]], [])).map Prod.fst =
     [[[1, 0], [0, 1], [1/2, 1/2]], [[1/2, 1/2], [1/2, 1/2], [3/4, 1/4]]] := by decide +kernel
+
+/-- expected payoff in the 3-player example: against (e₂, ½·½) own action 1 earns 1·½ -/
+example : (payoffVecN ([1, 0, 0, 0, 0, 0, 0, 1] : List Rat) [[0, 1], [1/2, 1/2]]) = [0, 1/2] := by decide +kernel
+example : expPayoff ([1, 0, 0, 0, 0, 0, 0, 1] : List Rat) [[0, 1], [1/2, 1/2]] 1 = 1/2 := by decide +kernel
+/-- the hypotheses of `fpStepN_smallest_expected_best_response` on the game `gN`, player 0 -/
+example : (gN[0]'(by decide)).flat.length = ([2, 2, 2] : List Nat).getD 0 0 * (rot 0 [2, 2, 2]).prod := by decide
+
+/-- non-vacuity: all hypotheses of `fpStepN_smallest_expected_best_response` hold for player 0 of `gN`
+    at the profile used above, so the theorem yields a concrete best response there -/
+example : ∃ b, b < ([2, 2, 2] : List Nat).getD 0 0 ∧
+    (fpStepN gN (1/2) [none, none, none] ([[1, 0], [0, 1], [1/2, 1/2]], [])).1[0]? =
+      some (scaleAdd (([[1, 0], [0, 1], [1/2, 1/2]] : List (List Rat)).getD 0 []) (1/2) b) ∧
+    ∀ a, a < ([2, 2, 2] : List Nat).getD 0 0 →
+      expPayoff (gN[0]'(by decide)).flat (rot 0 [[1, 0], [0, 1], [1/2, 1/2]]) a - (gN[0]'(by decide)).tol ≤
+        expPayoff (gN[0]'(by decide)).flat (rot 0 [[1, 0], [0, 1], [1/2, 1/2]]) b :=
+  fpStepN_smallest_expected_best_response gN (1/2) [none, none, none] ([[1, 0], [0, 1], [1/2, 1/2]], [])
+    [2, 2, 2] (by decide) (by decide) (by decide) (by decide) 0 (by decide) (by decide) (by decide)
+    (by decide +kernel) rfl
+
+/-- random tie-breaking in the 3-player game where everything ties: the draws 1, 0, 1 satisfy `BrsGuard` -/
+def gNr : List (GameN Rat) :=
+  [⟨[1, 1, 1, 1, 1, 1, 1, 1], 0, true⟩, ⟨[1, 1, 1, 1, 1, 1, 1, 1], 0, true⟩, ⟨[1, 1, 1, 1, 1, 1, 1, 1], 0, true⟩]
+example : BrsGuard ([[1, 0], [0, 1], [1/2, 1/2]] : List (List Rat)) [none, none, none] 0 gNr [1, 0, 1] := by
+  simp only [BrsGuard, gNr]; decide +kernel
+example : (fpStepN gNr (1/2) [none, none, none] ([[1, 0], [0, 1], [1/2, 1/2]], [1, 0, 1])).1 =
+    [[1/2, 1/2], [1/2, 1/2], [1/4, 3/4]] := by decide +kernel
+
+/-- non-vacuity of `fp_empirical_frequency`: the decreasing-gain run above (t₀ = 0, steps 1/2, 1/3)
+    satisfies the step-size hypothesis; player 0 moved towards action 1 then action 0, and indeed
+    `3 · (2/3) = 1 · 1 + 1` and `3 · (1/3) = 1 · 0 + 1` -/
+example : ∀ j (h : j < ([⟨1/2, none, none⟩, ⟨1/3, none, none⟩] : List (FpInp Rat)).length),
+    ([⟨1/2, none, none⟩, ⟨1/3, none, none⟩] : List (FpInp Rat))[j].γ =
+      stepSize (fun n : Nat => (n : Rat)) none (0 + j) := by
+  intro j h
+  have : j = 0 ∨ j = 1 := by simp at h; omega
+  rcases this with rfl | rfl <;> simp [stepSize]
+example : fpTargets fG fG [⟨1/2, none, none⟩, ⟨1/3, none, none⟩] (([1, 0], [0, 1]), []) = [(1, 0), (0, 0)] := by
+  decide +kernel
+example : (fpFinal fG fG [⟨1/2, none, none⟩, ⟨1/3, none, none⟩] (([1, 0], [0, 1]), [])).1 =
+    ([2/3, 1/3], [2/3, 1/3]) := by decide +kernel
 
 /-- local interaction on the directed 3-cycle, simultaneous revision: everyone copies its
     predecessor's action (computed from the OLD profile) -/
@@ -954,6 +1286,9 @@ example : LogitOK [2, 2] ([[[1/2, 3/2], [1, 2]], [[1, 2], [1, 3/2]]] : List (Lis
     have : row = [1, 2] ∨ row = [1, 3/2] := by simpa using hrow
     rcases this with rfl | rfl <;> exact ⟨by decide, by simp, by norm_num⟩
 example : InRange [2, 2] [0, 1] := List.Forall₂.cons (by decide) (List.Forall₂.cons (by decide) List.Forall₂.nil)
+/-- `logitChoice_eq_iff` on the row (1/2, 3/2): action 1 is chosen exactly for `1/2 ≤ u·(3/2) < 3/2` -/
+example : ([(1/2 : Rat), 3/2]).Pairwise (· ≤ ·) := by decide +kernel
+example : logitChoice [(1/2 : Rat), 3/2] (1/3) = 1 ∧ logitChoice [(1/2 : Rat), 3/2] (1/4) = 0 := by decide +kernel
 /-- without `u < 1` the choice leaves the action set (the reason for the hypothesis) -/
 example : logitChoice [(1/2 : Rat), 3/2] 1 = 2 := by decide +kernel
 
